@@ -105,3 +105,25 @@ def cti_tokens(text):
 def line_tokens(line):
     """Number of blank-separated tokens on one physical line (quote marks count as part of tokens)."""
     return len(line.split())
+
+
+# ------------------------------------------------------------------------ string arguments of a CTI directive
+_STRING_ARG = re.compile(r'(\w+)=("""[^"]*"""|"[^"]*")')
+
+
+def cti_string_args(text):
+    """Every `name=<quoted string>` argument of a written CTI directive, in order of appearance:
+    (name, value text, lines, separator) where `lines` has one (physical line, value tokens) pair per
+    physical line the value touches.  The physical line is the line of the directive from its first
+    column (so the indentation and the `name=` in front of the value count) up to the end of the value on
+    that line; the separator that follows the closing quotes (',' or ')') is returned apart and is not
+    part of the last line.  `value tokens` is line_tokens() of the part of the value on that line."""
+    out = []
+    for m in _STRING_ARG.finditer(text):
+        start = text.rfind('\n', 0, m.start()) + 1
+        phys = text[start:m.end()].split('\n')
+        val = m.group(2).split('\n')
+        assert len(phys) == len(val)
+        out.append((m.group(1), m.group(2), [(p, line_tokens(v)) for p, v in zip(phys, val)],
+                    text[m.end():m.end() + 2]))
+    return out
